@@ -606,6 +606,11 @@ func (api *DatabaseAPI) handleInsert(opID []byte, key string, data []byte) {
 	}
 
 	acc := r.GetAccessor(r)
+	if acc == nil {
+		// Records in a format without accessor cannot be inserted into.
+		api.send(opID, dbMsgTypeError, "record does not support inserting values", nil)
+		return
+	}
 
 	result := gjson.ParseBytes(data)
 	anythingPresent := false
